@@ -3387,7 +3387,14 @@ fn eval_built_in_call(
                 }
             };
 
+            // Keep the working directory absolute: other built-ins
+            // resolve relative paths against it.
             let path = PathBuf::from(path_s);
+            let path = if path.is_relative() {
+                env.working_directory.join(path)
+            } else {
+                path
+            };
             env.working_directory = path;
 
             let v = Value::ok(Value::unit());
